@@ -99,7 +99,10 @@ func c02Permute(doc map[string]any) map[string]any {
 }
 
 func VerifC02Determinism() {
-	family := vrtChoice("family", 18)
+	family := vrtParam("ONLYFAMILY", -1)
+	if family < 0 {
+		family = vrtChoice("family", 18)
+	}
 	v := "x" + vrtString("v", vrtParam("VL", 1), "ab")
 	mode := []int{1, 3, 4}[vrtChoice("order", 3)]
 	permute := vrtChoice("permuteDeclaration", 2) == 1
